@@ -45,6 +45,81 @@ type Term struct {
 	// binder info for quantifiers
 	Bound []*Term
 	str   string
+	key   Key
+	keyed bool
+	size  int
+}
+
+// Key: 128-bit structural hash of a term. Two terms with equal keys are treated as equal.
+type Key [2]uint64
+
+func mix(h uint64, v uint64) uint64 {
+	h ^= v + 0x9e3779b97f4a7c15 + (h << 6) + (h >> 2)
+	h *= 0xff51afd7ed558ccd
+	h ^= h >> 33
+	return h
+}
+
+func hashStr(seed uint64, s string) uint64 {
+	h := seed
+	for i := 0; i < len(s); i++ {
+		h ^= uint64(s[i])
+		h *= 1099511628211
+	}
+	return h
+}
+
+// Size: number of nodes of the term printed as a tree (saturating).
+func (t *Term) Size() int {
+	if t.size > 0 {
+		return t.size
+	}
+	n := 1
+	for _, a := range t.Args {
+		n += a.Size()
+		if n > 1<<40 {
+			n = 1 << 40
+			break
+		}
+	}
+	t.size = n
+	return n
+}
+
+func (t *Term) Key() Key {
+	if t.keyed {
+		return t.key
+	}
+	a := hashStr(14695981039346656037, t.Op)
+	b := hashStr(0x84222325cbf29ce4, t.Op)
+	a = hashStr(a, t.Name)
+	b = hashStr(b^0x5555, t.Name)
+	a = hashStr(a, string(t.Sort))
+	b = hashStr(b, string(t.Sort))
+	if t.Op == "lit" {
+		if t.Sort == SBool {
+			if t.B {
+				a, b = mix(a, 1), mix(b, 7)
+			} else {
+				a, b = mix(a, 2), mix(b, 11)
+			}
+		} else {
+			s := t.Int.String()
+			a, b = hashStr(a, s), hashStr(b^0x1234, s)
+		}
+	}
+	for _, bv := range t.Bound {
+		k := bv.Key()
+		a, b = mix(a, k[0]), mix(b, k[1])
+	}
+	for i, x := range t.Args {
+		k := x.Key()
+		a = mix(a, k[0]+uint64(i)*0x9e37)
+		b = mix(b, k[1]^uint64(i+1)*0x85ebca6b)
+	}
+	t.key = Key{a, b}
+	t.keyed = true
+	return t.key
 }
 
 func (t *Term) IsIntLit() bool  { return t.Op == "lit" && t.Sort == SInt }
@@ -150,7 +225,7 @@ func quoteSym(n string) string {
 	return n
 }
 
-func Equal(a, b *Term) bool { return a == b || a.String() == b.String() }
+func Equal(a, b *Term) bool { return a == b || a.Key() == b.Key() }
 
 // ---------- boolean connectives ----------
 
@@ -166,7 +241,7 @@ func Not(a *Term) *Term {
 
 func And(args ...*Term) *Term {
 	out := []*Term{}
-	seen := map[string]bool{}
+	seen := map[Key]bool{}
 	for _, a := range args {
 		if a == nil || a.IsTrue() {
 			continue
@@ -176,15 +251,15 @@ func And(args ...*Term) *Term {
 		}
 		if a.Op == "and" {
 			for _, x := range a.Args {
-				if !seen[x.String()] {
-					seen[x.String()] = true
+				if !seen[x.Key()] {
+					seen[x.Key()] = true
 					out = append(out, x)
 				}
 			}
 			continue
 		}
-		if !seen[a.String()] {
-			seen[a.String()] = true
+		if !seen[a.Key()] {
+			seen[a.Key()] = true
 			out = append(out, a)
 		}
 	}
@@ -199,7 +274,7 @@ func And(args ...*Term) *Term {
 
 func Or(args ...*Term) *Term {
 	out := []*Term{}
-	seen := map[string]bool{}
+	seen := map[Key]bool{}
 	for _, a := range args {
 		if a == nil || a.IsFalse() {
 			continue
@@ -209,15 +284,15 @@ func Or(args ...*Term) *Term {
 		}
 		if a.Op == "or" {
 			for _, x := range a.Args {
-				if !seen[x.String()] {
-					seen[x.String()] = true
+				if !seen[x.Key()] {
+					seen[x.Key()] = true
 					out = append(out, x)
 				}
 			}
 			continue
 		}
-		if !seen[a.String()] {
-			seen[a.String()] = true
+		if !seen[a.Key()] {
+			seen[a.Key()] = true
 			out = append(out, a)
 		}
 	}
@@ -631,16 +706,28 @@ type SymSig struct {
 }
 
 func (t *Term) Symbols(out map[string]SymSig) {
-	var rec func(t *Term, bound map[string]bool)
-	rec = func(t *Term, bound map[string]bool) {
+	collectSymbols([]*Term{t}, out)
+}
+
+// collectSymbols: free symbols of a set of terms (DAG traversal, each node once). Names
+// that occur as quantifier-bound variables anywhere are not reported (bound variable
+// names are never reused as free symbols by the engine).
+func collectSymbols(roots []*Term, out map[string]SymSig) {
+	visited := map[*Term]bool{}
+	boundNames := map[string]bool{}
+	vars := map[string]SymSig{}
+	var rec func(t *Term)
+	rec = func(t *Term) {
+		if visited[t] {
+			return
+		}
+		visited[t] = true
 		switch t.Op {
 		case "var":
-			if !bound[t.Name] {
-				if old, ok := out[t.Name]; ok && old.Ret != t.Sort {
-					panic(fmt.Sprintf("symbol %s used at sorts %s and %s", t.Name, old.Ret, t.Sort))
-				}
-				out[t.Name] = SymSig{Name: t.Name, Ret: t.Sort}
+			if old, ok := vars[t.Name]; ok && old.Ret != t.Sort {
+				panic(fmt.Sprintf("symbol %s used at sorts %s and %s", t.Name, old.Ret, t.Sort))
 			}
+			vars[t.Name] = SymSig{Name: t.Name, Ret: t.Sort}
 		case "app":
 			sig := SymSig{Name: t.Name, Ret: t.Sort}
 			for _, a := range t.Args {
@@ -653,21 +740,22 @@ func (t *Term) Symbols(out map[string]SymSig) {
 			}
 			out[t.Name] = sig
 		case "forall", "exists":
-			b2 := map[string]bool{}
-			for k := range bound {
-				b2[k] = true
-			}
 			for _, b := range t.Bound {
-				b2[b.Name] = true
+				boundNames[b.Name] = true
 			}
-			rec(t.Args[0], b2)
-			return
 		}
 		for _, a := range t.Args {
-			rec(a, bound)
+			rec(a)
 		}
 	}
-	rec(t, map[string]bool{})
+	for _, r := range roots {
+		rec(r)
+	}
+	for n, sig := range vars {
+		if !boundNames[n] {
+			out[n] = sig
+		}
+	}
 }
 
 func SortedKeys[V any](m map[string]V) []string {
@@ -678,3 +766,41 @@ func SortedKeys[V any](m map[string]V) []string {
 	sort.Strings(ks)
 	return ks
 }
+
+// seenSet: persistent set of term keys (layers shared between forked states).
+type seenSet struct {
+	m      map[Key]bool
+	parent *seenSet
+	depth  int
+}
+
+func newSeen(parent *seenSet) *seenSet {
+	d := 0
+	if parent != nil {
+		d = parent.depth + 1
+	}
+	s := &seenSet{m: map[Key]bool{}, parent: parent, depth: d}
+	if d > 48 {
+		// flatten
+		flat := map[Key]bool{}
+		for p := parent; p != nil; p = p.parent {
+			for k := range p.m {
+				flat[k] = true
+			}
+		}
+		s.parent = &seenSet{m: flat}
+		s.depth = 1
+	}
+	return s
+}
+
+func (s *seenSet) Has(k Key) bool {
+	for p := s; p != nil; p = p.parent {
+		if p.m[k] {
+			return true
+		}
+	}
+	return false
+}
+
+func (s *seenSet) Add(k Key) { s.m[k] = true }
